@@ -50,6 +50,7 @@ func c02Values() []sb.V {
 		{K: "safe", TS: []string{"html"}, E: []sb.V{{K: "arr", E: []sb.V{num(1), num(2)}}}}, {K: "safe", TS: []string{"js"}, E: []sb.V{{K: "hash", KS: []string{"a"}, E: []sb.V{num(1)}}}},
 		{K: "dag"}, {K: "nilptr:customsafe"}, {K: "nilptr:promoted-stringer"}, {K: "nilptr:promoted-number"}, {K: "nilptr:promoted-boolean"},
 		{K: "embednil:stringer"}, {K: "embednil:iface"}, {K: "embednil:safe"}, {K: "ptr", E: []sb.V{{K: "embednil:number"}}}, {K: "embednil:time"},
+		{K: "dagarr"}, {K: "cyclicarr"},
 	}
 }
 
@@ -132,7 +133,7 @@ func init() {
 		done := true
 		for _, f := range gen.TwigFilters {
 			for _, v := range vals {
-				if v.K == "dag" {
+				if v.K == "dag" || v.K == "dagarr" || v.K == "cyclicarr" {
 					// written out as a tree this value has 2^40 leaves: only the
 					// operators, which need not write it out, are given it
 					continue
@@ -158,7 +159,10 @@ func init() {
 					if !c.Mine(idx) {
 						continue
 					}
-					special := (l.K == "safe" || l.K == "dag" || l.K == "nilptr:customsafe") && (r.K == "safe" || r.K == "dag" || r.K == "nilptr:customsafe")
+					isSpecial := func(k string) bool {
+						return k == "safe" || k == "dag" || k == "nilptr:customsafe" || k == "dagarr" || k == "cyclicarr"
+					}
+					special := isSpecial(l.K) && isSpecial(r.K)
 					if c.Quick() && !special && Mix(c.Seed, uint64(idx))%6 != 0 {
 						continue
 					}
